@@ -64,19 +64,42 @@ def neutralise_macros(root: str) -> list[str]:
     return notes
 
 
+def _blank(unit: str) -> dict:
+    return {'unit': unit, 'engine': 'kani', 'status': 'ok', 'tool_error': None, 'obligations': [], 'failures': [],
+            'functions': [], 'assumed_contracts': [], 'assumption_scan': [], 'rules': {}, 'substitutions': [],
+            'vacuity': {}, 'solver_time_s': 0.0, 'wall_s': 0.0, 'checker_cmd': '', 'items': [], 'bounded': [],
+            'extra_assumptions': []}
+
+
 def run_unit(unit_dir: str, repo_root: str = '/repo', tier: str = 'quick', keep: bool = False) -> dict:
-    unit = os.path.basename(unit_dir.rstrip('/'))
-    cfg = tomllib.load(open(os.path.join(unit_dir, 'unit.toml'), 'rb'))
+    return run_group([unit_dir], repo_root, tier, keep)[os.path.basename(unit_dir.rstrip('/'))]
+
+
+def run_group(unit_dirs: list, repo_root: str = '/repo', tier: str = 'quick', keep: bool = False) -> dict:
+    """all units must target the same crate: ONE scratch copy, ONE cargo kani build, every harness of every unit"""
     t0 = time.time()
-    res: dict = {'unit': unit, 'engine': 'kani', 'status': 'ok', 'tool_error': None, 'obligations': [], 'failures': [],
-                 'functions': [], 'assumed_contracts': [], 'assumption_scan': [], 'rules': {}, 'substitutions': [],
-                 'vacuity': {}, 'solver_time_s': 0.0, 'wall_s': 0.0, 'checker_cmd': '', 'items': [], 'bounded': [],
-                 'extra_assumptions': []}
-    harnesses = [h for h in cfg.get('harness', []) if tier == 'thorough' or h.get('quick', True)]
-    if not harnesses:
-        res['status'] = 'tool-error'
-        res['tool_error'] = 'no harness selected'
-        return res
+    units = []
+    for d in unit_dirs:
+        u = os.path.basename(d.rstrip('/'))
+        cfg = tomllib.load(open(os.path.join(d, 'unit.toml'), 'rb'))
+        hs = [h for h in cfg.get('harness', []) if tier == 'thorough' or h.get('quick', True)]
+        units.append({'name': u, 'dir': d, 'cfg': cfg, 'harnesses': hs, 'res': _blank(u)})
+    out_res = {x['name']: x['res'] for x in units}
+
+    def fail_all(msg):
+        for x in units:
+            x['res']['status'] = 'tool-error'
+            x['res']['tool_error'] = msg
+        return out_res
+
+    crates = {x['cfg']['crate'] for x in units}
+    if len(crates) != 1:
+        return fail_all(f'run_group: units of different crates {crates}')
+    crate = crates.pop()
+    for x in units:
+        if not x['harnesses']:
+            x['res']['status'] = 'tool-error'
+            x['res']['tool_error'] = 'no harness selected'
     os.makedirs(WORK_ROOT, exist_ok=True)
     os.makedirs(CACHE_TARGET, exist_ok=True)
     lock = open(os.path.join(WORK_ROOT, 'kani.lock'), 'w')
@@ -87,117 +110,61 @@ def run_unit(unit_dir: str, repo_root: str = '/repo', tier: str = 'quick', keep:
         r = subprocess.run(['rsync', '-a', '--exclude', 'target', '--exclude', '.git', repo_root.rstrip('/') + '/', work + '/'],
                            capture_output=True, text=True)
         if r.returncode != 0:
-            res['status'] = 'tool-error'
-            res['tool_error'] = 'rsync failed: ' + r.stderr[-300:]
-            return res
+            return fail_all('rsync failed: ' + r.stderr[-300:])
         notes = neutralise_macros(work)
-        res['extra_assumptions'] += notes
-        # append harness module(s)
-        for tgt in cfg.get('target', [{'file': cfg.get('file'), 'harness_file': cfg.get('harness_file', 'harness.rs')}]):
-            src_path = os.path.join(work, tgt['file'])
-            if not os.path.isfile(src_path):
-                res['status'] = 'tool-error'
-                res['tool_error'] = f'lost anchor: {tgt["file"]} not found'
-                return res
-            htext = open(os.path.join(unit_dir, tgt['harness_file'])).read()
-            with open(src_path, 'a') as f:
-                f.write('\n\n#[cfg(kani)]\n#[allow(unused, clippy::all)]\nmod verif_kani {\n    use super::*;\n' + htext + '\n}\n')
-            # anchors: every function named in the unit must still exist in the file
-            src = open(src_path).read()
-            for fn in tgt.get('requires_fns', []):
-                if not re.search(r'\bfn\s+' + re.escape(fn) + r'\b', src):
-                    res['status'] = 'tool-error'
-                    res['tool_error'] = f'lost anchor: fn {fn} not found in {tgt["file"]}'
-                    return res
-        # crate-level feature gates if needed
-        for rel in cfg.get('crate_root_prelude_files', []):
-            p = os.path.join(work, rel)
-            s = open(p).read()
-            open(p, 'w').write(cfg.get('crate_root_prelude', '') + s)
-        cmd = ['cargo', 'kani', '-p', cfg['crate'], '-Z', 'function-contracts', '-Z', 'stubbing',
+        names_seen = set()
+        for x in units:
+            x['res']['extra_assumptions'] += notes
+            for tgt in x['cfg'].get('target', []):
+                src_path = os.path.join(work, tgt['file'])
+                if not os.path.isfile(src_path):
+                    x['res']['status'] = 'tool-error'
+                    x['res']['tool_error'] = f'lost anchor: {tgt["file"]} not found'
+                    continue
+                htext = open(os.path.join(x['dir'], tgt['harness_file'])).read()
+                modname = 'verif_kani_' + re.sub(r'\W', '_', x['name']).lower()
+                with open(src_path, 'a') as f:
+                    f.write(f'\n\n#[cfg(kani)]\n#[allow(unused, clippy::all)]\nmod {modname} {{\n    use super::*;\n' + htext + '\n}\n')
+                src = open(src_path).read()
+                for fn in tgt.get('requires_fns', []):
+                    if not re.search(r'\bfn\s+' + re.escape(fn) + r'\b', src):
+                        x['res']['status'] = 'tool-error'
+                        x['res']['tool_error'] = f'lost anchor: fn {fn} not found in {tgt["file"]}'
+            for h in x['harnesses']:
+                if h['name'] in names_seen:
+                    return fail_all(f'duplicate harness name {h["name"]}')
+                names_seen.add(h['name'])
+        live = [x for x in units if x['res']['status'] == 'ok']
+        if not live:
+            return out_res
+        cmd = ['cargo', 'kani', '-p', crate, '-Z', 'function-contracts', '-Z', 'stubbing',
                '--target-dir', CACHE_TARGET, '--output-format', 'terse']
-        cmd += cfg.get('kani_args', [])
         # harnesses run sequentially: with -j Kani interleaves the per-harness result blocks and they cannot be attributed
-        for h in harnesses:
-            cmd += ['--harness', h['name']]
+        for x in live:
+            for h in x['harnesses']:
+                cmd += ['--harness', h['name']]
         env = dict(os.environ, CARGO_NET_OFFLINE='true')
-        res['checker_cmd'] = ' '.join(cmd).replace(work, '<scratch>')
-        timeout = cfg.get('timeout_s', 1500) if tier == 'quick' else cfg.get('timeout_thorough_s', 5400)
+        for x in live:
+            x['res']['checker_cmd'] = ' '.join(cmd).replace(work, '<scratch>')
+        timeout = sum(x['cfg'].get('timeout_s', 1500) if tier == 'quick' else x['cfg'].get('timeout_thorough_s', 5400) for x in live)
         try:
             p = subprocess.run(cmd, cwd=work, env=env, capture_output=True, text=True, timeout=timeout)
             out = p.stdout + '\n' + p.stderr
-        except subprocess.TimeoutExpired as e:
-            res['status'] = 'tool-error'
-            res['tool_error'] = f'cargo kani timed out after {timeout}s'
-            return res
+        except subprocess.TimeoutExpired:
+            return fail_all(f'cargo kani timed out after {timeout}s')
         if keep:
-            open(os.path.join(WORK_ROOT, f'kani-{unit}.log'), 'w').write(out)
+            open(os.path.join(WORK_ROOT, 'kani-' + '+'.join(x['name'] for x in live) + '.log'), 'w').write(out)
         results = parse_kani(out)
         if 'internal compiler error' in out or 'error: could not compile' in out or (not results and p.returncode != 0):
-            res['status'] = 'tool-error'
             err = [l for l in out.split('\n') if l.startswith('error') or 'panicked' in l][:5]
-            res['tool_error'] = 'kani build failed / ICE: ' + ' | '.join(err)[:600]
-            return res
-        sol = 0.0
-        for h in harnesses:
-            name = h['name']
-            r = next((v for k, v in results.items() if k == name or k.endswith('::' + name)), None)
-            kind = h.get('kind', 'bounded')
-            ob = {'id': h['obligation'], 'kind': 'kani-' + kind, 'fn': h.get('fn', ''), 'clause': h.get('clause', ''),
-                  'harness': name}
-            if r is None:
-                res['status'] = 'tool-error'
-                res['tool_error'] = f'harness {name} produced no result (lost anchor or filtered out)'
-                return res
-            sol += r.get('time_s', 0.0)
-            if r['status'] == 'SUCCESSFUL':
-                # vacuity: a harness must contain a reachable cover (kani::cover!) reported SATISFIED when declared
-                if h.get('cover', False) and r.get('covers_satisfied', 0) == 0:
-                    res['status'] = 'tool-error'
-                    res['tool_error'] = f'vacuity guard: no cover satisfied in harness {name}'
-                    return res
-                if kind in ('complete', 'modular'):
-                    ob['status'] = 'discharged'
-                    res['obligations'].append(ob)
-                else:
-                    res['bounded'].append({'id': h['obligation'], 'bound': h.get('bound', ''), 'status': 'pass',
-                                           'clause': h.get('clause', ''), 'harness': name})
-            elif r['status'] == 'FAILED':
-                # only property failures are refutations; unwinding-assertion failures mean "bound too small" (tool error)
-                fails = r.get('failed_checks', [])
-                if fails and all('unwinding assertion' in f for f in fails):
-                    res['status'] = 'tool-error'
-                    res['tool_error'] = f'harness {name}: unwinding bound too small ({fails[0][:120]})'
-                    return res
-                ob['status'] = 'failed'
-                if kind in ('complete', 'modular'):
-                    res['obligations'].append(ob)
-                else:
-                    res['bounded'].append({'id': h['obligation'], 'bound': h.get('bound', ''), 'status': 'fail',
-                                           'clause': h.get('clause', ''), 'harness': name})
-                loc = r.get('failed_locs', [{}])[0] if r.get('failed_locs') else {}
-                res['failures'].append({'id': h['obligation'], 'message': '; '.join(fails[:3]) or 'VERIFICATION FAILED',
-                                        'kind': 'kani', 'fn': h.get('fn', ''), 'clause': h.get('clause', ''),
-                                        'rendered': r.get('raw', '')[-2500:],
-                                        'exit': {'file': loc.get('file', tgt['file']), 'line': loc.get('line', 0),
-                                                 'text': loc.get('text', fails[0] if fails else '')}})
-            else:
-                res['status'] = 'tool-error'
-                res['tool_error'] = f'harness {name}: {r["status"]}'
-                return res
-        # concrete playback: turn each refutation into a concrete failing input replayed on the real (compiled) code
-        for fl in res['failures']:
-            hname = next(h['name'] for h in harnesses if h['obligation'] == fl['id'])
-            fl['replay'] = concrete_playback(work, cfg, hname, env)
-        res['solver_time_s'] = round(sol, 2)
-        res['functions'] = [{'name': f, 'file': t.get('file'), 'line': None, 'sha256': None, 'smt_ms': None, 'external_body': False}
-                            for t in cfg.get('target', []) for f in t.get('requires_fns', [])]
-        res['assumption_scan'] = scan_harness(unit_dir, cfg)
-        if res['failures']:
-            res['status'] = 'violation'
-        return res
+            return fail_all('kani build failed / ICE: ' + ' | '.join(err)[:600])
+        for x in live:
+            _fill_unit(x, results, work, env)
+            x['res']['wall_s'] = round(time.time() - t0, 2)
+        return out_res
     finally:
-        res['wall_s'] = round(time.time() - t0, 2)
+        for x in units:
+            x['res']['wall_s'] = x['res']['wall_s'] or round(time.time() - t0, 2)
         if not keep:
             shutil.rmtree(work, ignore_errors=True)
         # drop sozu artefacts from the cache target, keep third-party deps
@@ -214,6 +181,68 @@ def run_unit(unit_dir: str, repo_root: str = '/repo', tier: str = 'quick', keep:
             pass
         fcntl.flock(lock, fcntl.LOCK_UN)
         lock.close()
+
+
+def _fill_unit(x: dict, results: dict, work: str, env: dict) -> None:
+    res, cfg, harnesses = x['res'], x['cfg'], x['harnesses']
+    tgt0 = cfg.get('target', [{}])[0]
+    sol = 0.0
+    for h in harnesses:
+        name = h['name']
+        r = next((v for k, v in results.items() if k == name or k.endswith('::' + name)), None)
+        kind = h.get('kind', 'bounded')
+        ob = {'id': h['obligation'], 'kind': 'kani-' + kind, 'fn': h.get('fn', ''), 'clause': h.get('clause', ''), 'harness': name}
+        if r is None:
+            res['status'] = 'tool-error'
+            res['tool_error'] = f'harness {name} produced no result (lost anchor or filtered out)'
+            return
+        sol += r.get('time_s', 0.0)
+        if r['status'] == 'SUCCESSFUL':
+            if h.get('cover', False) and r.get('covers_satisfied', 0) == 0:
+                res['status'] = 'tool-error'
+                res['tool_error'] = f'vacuity guard: no cover satisfied in harness {name}'
+                return
+            if kind in ('complete', 'modular'):
+                ob['status'] = 'discharged'
+                res['obligations'].append(ob)
+            else:
+                res['bounded'].append({'id': h['obligation'], 'bound': h.get('bound', ''), 'status': 'pass',
+                                       'clause': h.get('clause', ''), 'harness': name})
+        elif r['status'] == 'FAILED':
+            fails = r.get('failed_checks', [])
+            if fails and any('not currently supported by Kani' in f or 'unsupported' in f.lower() for f in fails):
+                res['status'] = 'tool-error'
+                res['tool_error'] = f'harness {name}: construct outside Kani: {fails[0][:160]}'
+                return
+            if fails and all('unwinding assertion' in f for f in fails):
+                res['status'] = 'tool-error'
+                res['tool_error'] = f'harness {name}: unwinding bound too small ({fails[0][:120]})'
+                return
+            ob['status'] = 'failed'
+            if kind in ('complete', 'modular'):
+                res['obligations'].append(ob)
+            else:
+                res['bounded'].append({'id': h['obligation'], 'bound': h.get('bound', ''), 'status': 'fail',
+                                       'clause': h.get('clause', ''), 'harness': name})
+            loc = r.get('failed_locs', [{}])[0] if r.get('failed_locs') else {}
+            res['failures'].append({'id': h['obligation'], 'message': '; '.join(fails[:3]) or 'VERIFICATION FAILED',
+                                    'kind': 'kani', 'fn': h.get('fn', ''), 'clause': h.get('clause', ''),
+                                    'rendered': r.get('raw', '')[-2500:],
+                                    'exit': {'file': loc.get('file', tgt0.get('file', '')), 'line': loc.get('line', 0),
+                                             'text': loc.get('text', fails[0] if fails else '')}})
+        else:
+            res['status'] = 'tool-error'
+            res['tool_error'] = f'harness {name}: {r["status"]}'
+            return
+    for fl in res['failures']:
+        hname = next(h['name'] for h in harnesses if h['obligation'] == fl['id'])
+        fl['replay'] = concrete_playback(work, cfg, hname, env)
+    res['solver_time_s'] = round(sol, 2)
+    res['functions'] = [{'name': f, 'file': t.get('file'), 'line': None, 'sha256': None, 'smt_ms': None, 'external_body': False}
+                        for t in cfg.get('target', []) for f in t.get('requires_fns', [])]
+    res['assumption_scan'] = scan_harness(x['dir'], cfg)
+    if res['failures']:
+        res['status'] = 'violation'
 
 
 def concrete_playback(work: str, cfg: dict, harness: str, env: dict) -> dict:
